@@ -21,30 +21,30 @@ func init() {
 
 	register(&core.Rule{ID: "C14.1", Prop: "C14", MinSites: 3,
 		Desc: "count pairing: addConn counts +1 exactly when it stores the conn; every path of delConn nets -1",
-		Run: runC14_1})
+		Run:  runC14_1})
 	register(&core.Rule{ID: "C14.2", Prop: "C14", MinSites: 2,
 		Desc: "key/ index agreement: map variant uses c.fd for add/delete and fd for lookup; matrix variant co-updates UpdateIndexes, conn.gfd and fd2gfd on every relocation path, with the destination indexes, and only when compaction is enabled",
-		Run: runC14_2})
+		Run:  runC14_2})
 	register(&core.Rule{ID: "C14.3", Prop: "C14", MinSites: 2, Applies: func(c core.Config) bool { return c.HasTag("gc_opt") },
 		Desc: "iterate sets disableCompact = true before visiting and resets it by defer; delConn relocates only on the disableCompact == false edge",
-		Run: runC14_3})
+		Run:  runC14_3})
 	register(&core.Rule{ID: "C14.4", Prop: "C14", MinSites: 1,
 		Desc: "lookup: getConn returns the table/map entry addressed by the descriptor (matrix: through fd2gfd with the ok test and the nil-row test)",
-		Run: runC14_4})
+		Run:  runC14_4})
 	register(&core.Rule{ID: "C14.6", Prop: "C14", MinSites: 3, Applies: func(c core.Config) bool { return c.HasTag("gc_opt") },
 		Desc: "relocation scan coverage: the backward search for the last live entry starts at the last row/column (RowMax-1, ColumnMax-1), goes down to the vacated row (>=) and, in every other row, down to column 0 (lower bound -1, raised to the vacated column only in the vacated row)",
-		Run: runC14_6})
+		Run:  runC14_6})
 	register(&core.Rule{ID: "C14.5", Prop: "C14", MinSites: 1,
 		Desc: "addConn sets c.gfd from NewGFD(c.fd, index, row, column) and (matrix) stores that same value in fd2gfd[c.fd] and the conn at table[row][column]",
-		Run: runC14_5})
+		Run:  runC14_5})
 }
 
 type regAnch struct {
-	gc                                       bool
-	add, del, get, iter, inc                 *fn
+	gc                                          bool
+	add, del, get, iter, inc                    *fn
 	table, fd2gfd, connMap, disable, rowF, colF *types.Var
-	connFd, connGfd                          *types.Var
-	newGFD, update                           *types.Func
+	connFd, connGfd                             *types.Var
+	newGFD, update                              *types.Func
 }
 
 func regAnchors(c *core.Ctx) *regAnch {
